@@ -46,10 +46,15 @@ ION_STRINGS = [
     "{[#A]|3}.{#A=[$]CC[$][N+](C)(C)C.[Cl-]}",
     "{[#A][#B]}.{#A=[$]CC[$][$],#B=[$]C[O-].[Na+]}",
     "{[#A]}.{#A=[NH4+].[OH-]}",
+    # aromatic units split across fragments, rings of identical units
+    "{[#TC5]1[#TC5][#TC5]1}.{#TC5=[$]cc[$]}",
+    "{[#A]=[#B]}.{#A=[$]cc[$]C,#B=[$]cccc[$]}",
+    "{[#A][#B][#A]}.{#A=Cc1ccc([$])cc1,#B=[$]c1ccc([$])cc1}",
+    "{[#P]=[#Q]}.{#P=[$]cnc[$],#Q=[$]ccc[$]}",
     # a virtual (fragment-less) site written before / between the real nodes
     "{[#VS].[#ET][#OH]}.{#ET=[$]CC,#OH=[$]O}",
     "{[#ET]1.[#VS].[#OH]1}.{#ET=[$]CC,#OH=[$]O}",
-    "{[#A][#VS].[#B]}.{#A=[$]CC[$],#B=[$]N}",
+    "{[#A].[#VS].[#B]}.{#A=[$]CC[$],#B=[$]N}",
 ]
 
 def generate(run_seed, prop, tier="quick"):
@@ -110,8 +115,8 @@ def generate(run_seed, prop, tier="quick"):
                                                          hyper=rng.choice([(), ("S", "P", "N"), ("S", "P", "N", "exotic")]),
                                                          explicit_h=rng.random() < 0.3,
                                                          components=rng.choice([1, 1, 1, 2, 3])) for _ in range(rng.choice([1, 2]))]
-        if rng.random() < 0.3:
-            scenario["resolver_strings"] = [rng.choice(ION_STRINGS)]
+        if rng.random() < 0.35:
+            scenario["resolver_strings"] = [rng.choice(ION_STRINGS + [w[0] for w in WRITTEN_H_STRINGS])]
         if rng.random() < 0.02:
             scenario["resolver_strings"] = scenario.get("resolver_strings", []) + [rng.choice(BIG_STRINGS)]
     return scenario
@@ -761,6 +766,14 @@ def run_history(scenario, only=None):
     return {"events": events, "violations": violations, "stats": stats}
 
 
+# strings whose written-out, annotated hydrogens must survive: (string, {weight: number of hydrogens written with it})
+WRITTEN_H_STRINGS = [
+    ("{[#A][#B]}.{#A=CC[!],#B=[!]C([H;0.5])O}", {0.5: 1}),
+    ("{[#A][#B]}.{#A=C([H;0.25])C[!],#B=[!]C([H;0.5])([H;0.5])O}", {0.25: 1, 0.5: 2}),
+    ("{[#A][#B][#A]}.{#A=[$]C([H;2.0])C,#B=[$]C([H;0.5])[$]}", {2.0: 2, 0.5: 1}),
+]
+
+
 def resolve_strings(strings):
     """Resolver-side C09 monitor on curated strings (free ions, salts, surplus descriptors)."""
     from cgsmiles.resolve import MoleculeResolver
@@ -775,6 +788,14 @@ def resolve_strings(strings):
             continue
         for detail in check_valence(fine, explicit_h=True, stats=stats):
             out.append({"oracle": "C09.valence", "detail": "resolver output of %s: %s" % (text, detail), "event": None})
+        for known, expect in WRITTEN_H_STRINGS:
+            if known == text:
+                for weight, count in expect.items():
+                    have = sum(1 for n in fine.nodes if fine.nodes[n].get("element") == "H" and fine.nodes[n].get("weight") == weight)
+                    if have < count:
+                        out.append({"oracle": "C09.valence", "event": None,
+                                    "detail": "resolver output of %s: %d hydrogens were written with weight %s, %d are left (written hydrogens must be kept)"
+                                              % (text, count, weight, have)})
         stats["resolver_graphs"] = stats.get("resolver_graphs", 0) + 1
     return {"violations": out, "stats": stats}
 
